@@ -13,6 +13,7 @@ CONSTANTS
   WithErrors = TRUE
   WithIdle = TRUE
   WithSleep = TRUE
+  KeepLog = FALSE
 INVARIANT Book
 POSTCONDITION Post
 CHECK_DEADLOCK FALSE
